@@ -59,7 +59,8 @@ def model_strategy(draw, tier, linked=True):
     return {"n": n, "part": part, "lat": list(lat), "win": win, "handlers": handlers, "initial": initial,
             "fuel": draw(st.sampled_from([2, 3, 3, 4])),
             "end": draw(st.sampled_from([None, None, "w3", "w5+1", "w8-1", "w30"])),
-            "workers": draw(st.sampled_from([1, 0])), "linked": linked}
+            "workers": draw(st.sampled_from([1, 0])), "linked": linked,
+            "srcbits": draw(st.sampled_from([0, 0, 0, 1, 2, 3, 5, 6, 63]))}     # which entities are registered as partition *sources*
 
 
 def lat_ns(case):
@@ -107,6 +108,7 @@ class _TT(logging.Handler):
 def build(case):
     """Fresh entities + initial events for one execution. Returns (entities, initial_events, sent_cross)."""
     from happysimulator import Entity, Event, Instant
+    from happysimulator.load.source import Source
     n = max(2, int(case["n"]))
     part = [case["part"][i % len(case["part"])] for i in range(n)]
     L = lat_ns(case)
@@ -122,12 +124,7 @@ def build(case):
             stats["cross"] += 1
         return Event(time=Instant(now + dt), event_type=KINDS[em["kind"] % 3], target=ents[tgt], context={"fuel": fuel})
 
-    class CEnt(Entity):
-        def __init__(self, idx):
-            super().__init__(f"e{idx}")
-            self.idx = idx
-            self._log = []
-
+    class _Behaviour:
         def handle_event(self, event):
             now = self.now.nanoseconds
             k = KINDS.index(event.event_type)
@@ -148,7 +145,25 @@ def build(case):
             now = self.now.nanoseconds
             return [mk(em, fuel - 1, now, self.idx) for em in beh["emits"]]
 
-    ents.extend(CEnt(i) for i in range(n))
+    class CEnt(_Behaviour, Entity):
+        def __init__(self, idx):
+            Entity.__init__(self, f"e{idx}")
+            self.idx = idx
+            self._log = []
+
+    class CSrc(_Behaviour, Source):
+        """The same scripted entity registered as a *source* of its partition (a closed-loop client written as a Source subclass):
+        it produces no load of its own (start() returns nothing) but receives events like any entity."""
+        def __init__(self, idx):
+            Entity.__init__(self, f"e{idx}")
+            self.idx = idx
+            self._log = []
+
+        def start(self, start_time):
+            return []
+
+    srcbits = int(case.get("srcbits", 0))
+    ents.extend((CSrc(i) if (srcbits >> i) & 1 else CEnt(i)) for i in range(n))
     _, wgrid = window_s(case)
     wns = max(1, round(wgrid * 1e9))
     initial = []
@@ -183,8 +198,9 @@ def run_sequential(case, only_part=None):
     ents, part, initial, stats = build(case)
     end = end_ns_of(case)
     kw = {"end_time": Instant(end)} if end is not None else {}
+    from happysimulator.load.source import Source
     sel = [e for e in ents if only_part is None or part[e.idx] == only_part]
-    sim = Simulation(entities=sel, **kw)
+    sim = Simulation(entities=[e for e in sel if not isinstance(e, Source)], sources=[e for e in sel if isinstance(e, Source)], **kw)
     for t, tgt, k in initial:
         if only_part is None or part[tgt] == only_part:
             sim.schedule(Event(time=Instant(t), event_type=KINDS[k], target=ents[tgt], context={"fuel": case["fuel"]}))
@@ -197,7 +213,9 @@ def run_parallel(case, workers_all):
     from happysimulator.parallel import ParallelSimulation, PartitionLink, SimulationPartition
     ents, part, initial, stats = build(case)
     names = sorted(set(part))
-    parts = [SimulationPartition(name=f"p{p}", entities=[e for e in ents if part[e.idx] == p]) for p in names]
+    from happysimulator.load.source import Source
+    parts = [SimulationPartition(name=f"p{p}", entities=[e for e in ents if part[e.idx] == p and not isinstance(e, Source)],
+                                 sources=[e for e in ents if part[e.idx] == p and isinstance(e, Source)]) for p in names]
     links = []
     if case.get("linked", True):
         L = lat_ns(case) / 1e9
@@ -272,7 +290,7 @@ def execute_linked(case):
     cross = sstats["cross"]
     r.labels += [l for l, c in (("cross-traffic", cross > 0), ("end-set", end is not None), ("win:" + case["win"], True),
                                 ("workers:1" if case.get("workers") else "workers:all", True),
-                                ("decimal-latency", case["lat"][0] == "ms")) if c]
+                                ("decimal-latency", case["lat"][0] == "ms"), ("entities-as-sources", bool(case.get("srcbits")))) if c]
     r.nontrivial = cross > 0 and sum(len(v) for v in seq.values()) >= 4
     r.target = float(min(cross, 20))
     return r
@@ -306,7 +324,8 @@ def execute_independent(case):
     return r
 
 
-RULE = ("stateless scripted entities (immediate and one-yield generator handlers) spread over 2-4 partitions, all pairs linked with "
+RULE = ("stateless scripted entities (immediate and one-yield generator handlers; some registered as partition sources instead of "
+        "entities) spread over 2-4 partitions, all pairs linked with "
         "min_latency L in {1,2,5 ticks of 1/512 s, 1,3,7,10 ms}; cross-partition emits carry delay L + extra (extra may be 0), local "
         "emits arbitrary; window_size in {default, L, L/2, L/3, 0.3 L}; initial events placed exactly at, 1 ns before/after and in the "
         "middle of window boundaries with idle gaps of up to 20 windows; end_time none / on / off a boundary; max_workers 1 or "
